@@ -44,6 +44,10 @@ RULE = ('random class diagrams as for C14, every second one with XML-special / n
         'attribute and, if there are edits, they change the tree; distinct = distinct case content')
 EXHAUSTIVE = {'quick': False, 'thorough': False}
 ASSUMPTIONS = [
+    'EP_PKGREF package references (the `for ep_pkg in many(ep_pkg).EP_PKG[1402, ...]` loop of is_contained_in) are not '
+    'modelled and not generated; acyclic containment and acyclic user-type chains (XWF: TreeOk, DtChainOk) - Python does '
+    'not terminate otherwise',
+    'the EMPTY data type name is in the domain (modelled: omitted wherever Python tests the name for truthiness)',
     'domain: well-formed populations as for C14; data type names are unique (xs:simpleType names must be)',
     'the written text is modelled as minidom.toprettyxml of Python 3.12.1 writes it (attribute values: & < > " replaced); names with CR, LF or TAB are outside the domain (that version writes them raw and an XML parser then reads blanks)',
 ]
@@ -124,7 +128,8 @@ def generate(ctx):
     #      unsupported ones) and attributes typed by instance reference / structured / subtype-less data types
     for j in range(ctx.pick(24, 200)):
         r = rng.fork('targeted', j)
-        dd = E.gen_diagram(r, max_classes=4, special_names=(j % 4 == 0), ensure_bare=True, ensure_unsupported=True)
+        dd = E.gen_diagram(r, max_classes=4, special_names=(j % 4 == 0), ensure_bare=True, ensure_unsupported=True,
+                           ensure_empty_name=(j % 2 == 0), ensure_dangling_parent=(j % 3 == 0), empty_enum=True)
         comps = [k['name'] for k in dd['containers'] if k['comp']]
         if not comps:
             continue
@@ -146,7 +151,7 @@ def generate(ctx):
     n = ctx.pick(350, 5000)
     for i in range(n):
         r = rng.fork('synth', i)
-        d = E.gen_diagram(r, max_classes=ctx.pick(5, 7), special_names=(i % 2 == 0))
+        d = E.gen_diagram(r, max_classes=ctx.pick(5, 7), special_names=(i % 2 == 0), empty_enum=True)
         comps = [k['name'] for k in d['containers'] if k['comp']]
         if not comps or r.random() < 0.03:
             yield {'src': 'synth', 'diagram': d, 'comp': 'NoSuchComponent', 'edits': [], 'entry': 'main',
